@@ -61,7 +61,8 @@ DropSemi(bs) ==
 \* ---- programs (a slice of the Gen_Prog families, plus expression statements that exercise every operator)
 E0 == { L1, Id("x"), Asg("x", L2), Bin("+", Id("x"), L1), Bin("+", Par(Asg("y", L2)), Id("x")), Id("TYPE"),
         Bin("-", L1, Un("-", L2)), Bin("or", Un("not", Id("x")), Bin("and", L1, Lit(StrV(<<35, 59, 32, 40>>)))),
-        Bin("<=", Bin("*", L2, Lit(FloatV(5, 2))), Bin("/", L1, L2)), Bin("==", Lit(BoolV(TRUE)), Lit(NilV)), Un("-", Par(Un("+", L1))) }
+        Bin("<=", Bin("*", L2, Lit(FloatV(5, 2))), Bin("/", L1, L2)), Bin("==", Lit(BoolV(TRUE)), Lit(NilV)), Un("-", Par(Un("+", L1))),
+        Un("not", Bin("==", Id("x"), L1)), Bin("!=", L1, Un("not", Bin("<", L2, Id("x")))) }      \* not reaches over the comparison that follows it
 S0 == { SVar("x", FALSE, NoE), SVar("y", TRUE, L1) } \cup { SVar("x", TRUE, e) : e \in E0 } \cup { SPrint(e) : e \in E0 } \cup { SEval(e) : e \in E0 }
 InB == S0 \cup { SExpr(e) : e \in E0 } \cup { SExpr(Asg("f", e)) : e \in E0 }
 Items == InB \cup { SDef("b", nm, Opt(s)) : nm \in {"", "n"}, s \in InB \cup {None} } \cup { SBind("a", sel, tgt) : sel \in {"none", "last", "all", "bogus"}, tgt \in {"struct", "slice"} }
